@@ -11,6 +11,7 @@ import (
 	"github.com/ovh/kmip-go/payloads"
 	"io"
 	"net"
+	"os"
 	"runtime"
 	"sync"
 	"sync/atomic"
@@ -178,7 +179,7 @@ func runC07(c *vlib.Check) {
 	c.Rule = fmt.Sprintf("explicit-state search over transport answers: message sequences of length <=%d over sizes {8,16,24,520,1032} and top-level padded scalars (5-byte text, 9-byte byte string, integer); every Read(p) is answered with a size from {len(p),1,2,7,8,len(p)-1} "+
 		"(deviation = any answer other than len(p), bound %d, iterated); all 2^(L-1) segmentations of every stream of L<=%d bytes; truncation of every stream at every offset (with full reads and with 1-byte reads); "+
 		"announced value lengths {limit-24 .. limit+8 incl. unaligned ones, 2^31-16 .. 2^31+8, 0xBFFFFFF8, 2^32-16 .. 2^32-1} against limits {64, 1 MiB}; every answer sequence also with the limit set to the largest message of the sequence (a per-message limit must not act on the stream total); "+
-		"size histories: all ordered pairs of message sizes 16..2048 step 8 (thorough: ..8192, and triples on a 136-byte grid) on one stream, with and without that limit, and all ordered pairs of large messages {4 KiB .. 128 KiB, around powers of two}. Sending side: every ordered pair of Sends (successful, failing, failing half-way, panicking in the encoder) x 4 sizes on two streams - the second stream carries exactly its own message. The rejection is also driven through the real server (1 MiB limit): an oversized header followed by a valid request is answered once and the following bytes are not served. Reference model: split the byte stream at the announced padded lengths. "+
+		"size histories: all ordered pairs of message sizes 16..2048 step 8 (thorough: ..8192, and triples on a 136-byte grid) on one stream, with and without that limit, and all ordered pairs of large messages {4 KiB .. 128 KiB, around powers of two}. Sending side: every ordered pair of Sends (successful, failing, failing half-way, panicking in the encoder) x 4 sizes on two streams - the second stream carries exactly its own message. The rejection is also driven through the real server (1 MiB limit): an oversized header followed by a valid request is answered once and the following bytes are not served; and a two-request stream whose Read fails once with a transient condition (deadline exceeded, temporary error, other timeout, interrupted call) at every byte offset and then goes on: the handlers receive a prefix of the sent requests and no response is written without a request. Reference model: split the byte stream at the announced padded lengths. "+
 		"states = distinct (stream, answer sequence) pairs, transitions = Recv calls", maxSeq, maxDev, segL)
 	c.Assumptions = []string{"the transport never returns more than len(p) bytes and returns at least one byte per successful Read"}
 	var seqs [][]int
@@ -418,6 +419,7 @@ func runC07(c *vlib.Check) {
 	}
 	states += c07Server(c)
 	states += c07SendHistories(c)
+	states += c07ServerTransientErrors(c)
 	c.States = states
 	c.Exhaustive = c.Exhaustive || !c07Inconclusive
 	if c07Inconclusive {
@@ -577,5 +579,182 @@ func c07SendHistories(c *vlib.Check) int64 {
 			}
 		}
 	}
+	return n
+}
+
+// c07ScriptConn is the server side of a connection whose Read delivers data[:failAt], then fails once with failErr
+// (nothing consumed), then delivers the rest, then reports the end of the stream. Writes are recorded.
+type c07ScriptConn struct {
+	mu      sync.Mutex
+	data    []byte
+	pos     int
+	failAt  int
+	failErr error
+	failed  bool
+	chunk   int // 0 = as much as fits
+	out     bytes.Buffer
+	closed  chan struct{}
+	once    sync.Once
+}
+
+type c07Addr struct{}
+
+func (c07Addr) Network() string { return "script" }
+func (c07Addr) String() string  { return "script" }
+
+type c07NetErr struct {
+	msg                string
+	timeout, temporary bool
+}
+
+func (e *c07NetErr) Error() string   { return e.msg }
+func (e *c07NetErr) Timeout() bool   { return e.timeout }
+func (e *c07NetErr) Temporary() bool { return e.temporary }
+
+func (c *c07ScriptConn) Read(p []byte) (int, error) {
+	c.mu.Lock()
+	defer c.mu.Unlock()
+	select {
+	case <-c.closed:
+		return 0, net.ErrClosed
+	default:
+	}
+	if len(p) == 0 {
+		return 0, nil
+	}
+	if c.failErr != nil && !c.failed && c.pos == c.failAt {
+		c.failed = true
+		return 0, c.failErr
+	}
+	if c.pos >= len(c.data) {
+		return 0, io.EOF
+	}
+	end := len(c.data)
+	if c.failErr != nil && !c.failed && c.failAt > c.pos {
+		end = c.failAt
+	}
+	n := end - c.pos
+	if n > len(p) {
+		n = len(p)
+	}
+	if c.chunk > 0 && n > c.chunk {
+		n = c.chunk
+	}
+	copy(p, c.data[c.pos:c.pos+n])
+	c.pos += n
+	return n, nil
+}
+func (c *c07ScriptConn) Write(p []byte) (int, error) {
+	c.mu.Lock()
+	defer c.mu.Unlock()
+	c.out.Write(p)
+	return len(p), nil
+}
+func (c *c07ScriptConn) Close() error                       { c.once.Do(func() { close(c.closed) }); return nil }
+func (c *c07ScriptConn) LocalAddr() net.Addr                { return c07Addr{} }
+func (c *c07ScriptConn) RemoteAddr() net.Addr               { return c07Addr{} }
+func (c *c07ScriptConn) SetDeadline(t time.Time) error      { return nil }
+func (c *c07ScriptConn) SetReadDeadline(t time.Time) error  { return nil }
+func (c *c07ScriptConn) SetWriteDeadline(t time.Time) error { return nil }
+
+// c07ServerTransientErrors: the receiving side inside the real server when the transport reports a transient condition
+// (read deadline exceeded, temporary error, interrupted call) once, at every byte offset of a two-message stream, and then
+// goes on delivering: whatever the server does about the error, the requests it hands to the handlers are a prefix of the
+// requests sent, in order, and it writes no more responses than it received requests. The first request carries an opaque
+// byte string (Unique Batch Item ID) whose content is itself a well-formed request message.
+func c07ServerTransientErrors(c *vlib.Check) int64 {
+	var n int64
+	inner := kmip.NewRequestMessage(kmip.V1_4, &payloads.DestroyRequestPayload{UniqueIdentifier: "victim"})
+	m1 := kmip.NewRequestMessage(kmip.V1_4, &payloads.ActivateRequestPayload{UniqueIdentifier: "first"})
+	m1.BatchItem[0].UniqueBatchItemID = append([]byte{}, ttlv.MarshalTTLV(&inner)...)
+	m2 := kmip.NewRequestMessage(kmip.V1_4, &payloads.ActivateRequestPayload{UniqueIdentifier: "second"})
+	b1 := append([]byte{}, ttlv.MarshalTTLV(&m1)...)
+	data := append(append([]byte{}, b1...), ttlv.MarshalTTLV(&m2)...)
+	errs := []struct {
+		name string
+		mk   func() error
+	}{
+		{"read deadline exceeded", func() error { return &net.OpError{Op: "read", Net: "script", Err: os.ErrDeadlineExceeded} }},
+		{"temporary error", func() error { return &net.OpError{Op: "read", Net: "script", Err: &c07NetErr{"resource temporarily unavailable", false, true}} }},
+		{"timeout of another kind", func() error { return &c07NetErr{"i/o timeout", true, true} }},
+		{"interrupted system call", func() error { return errors.New("read: interrupted system call") }},
+	}
+	type job struct{ ei, at, chunk int }
+	var jobs []job
+	for ei := range errs {
+		for at := 0; at <= len(data); at++ {
+			jobs = append(jobs, job{ei, at, 0})
+			if at%8 == 0 {
+				jobs = append(jobs, job{ei, at, 3})
+			}
+		}
+	}
+	var mu sync.Mutex
+	vlib.Parallel(len(jobs), 0, func(i int) {
+		j := jobs[i]
+		label := fmt.Sprintf("server receives 2 requests (%d bytes); Read fails once with %q at offset %d (reads of <= %d bytes, 0 = unlimited), then delivers the rest", len(data), errs[j.ei].name, j.at, j.chunk)
+		c.Eval([]byte(label), true)
+		rep := map[string]any{"kind": "server-transient-error", "case": label}
+		var hmu sync.Mutex
+		var handled []string
+		exec := kmipserver.NewBatchExecutor()
+		exec.Route(kmip.OperationActivate, kmipserver.HandleFunc(func(ctx context.Context, req *payloads.ActivateRequestPayload) (*payloads.ActivateResponsePayload, error) {
+			hmu.Lock()
+			handled = append(handled, "Activate "+req.UniqueIdentifier)
+			hmu.Unlock()
+			return &payloads.ActivateResponsePayload{UniqueIdentifier: req.UniqueIdentifier}, nil
+		}))
+		exec.Route(kmip.OperationDestroy, kmipserver.HandleFunc(func(ctx context.Context, req *payloads.DestroyRequestPayload) (*payloads.DestroyResponsePayload, error) {
+			hmu.Lock()
+			handled = append(handled, "Destroy "+req.UniqueIdentifier)
+			hmu.Unlock()
+			return &payloads.DestroyResponsePayload{UniqueIdentifier: req.UniqueIdentifier}, nil
+		}))
+		lis := &c07Listener{ch: make(chan net.Conn), closed: make(chan struct{})}
+		srv := kmipserver.NewServer(lis, exec)
+		served := make(chan struct{})
+		go func() { defer close(served); _ = srv.Serve() }()
+		sc := &c07ScriptConn{data: data, failAt: j.at, failErr: errs[j.ei].mk(), chunk: j.chunk, closed: make(chan struct{})}
+		lis.ch <- sc
+		select {
+		case <-sc.closed: // the server closes the connection when it has seen the end of the stream (or given up on it)
+		case <-time.After(30 * time.Second):
+			c07Inconclusive = true // no wall-clock verdicts: left undecided
+			fmt.Printf("MACHINERY: %s: the connection was not closed within 30 s; left undecided\n", label)
+			_ = sc.Close()
+		}
+		_ = srv.Shutdown()
+		<-served
+		hmu.Lock()
+		got := append([]string{}, handled...)
+		hmu.Unlock()
+		sent := []string{"Activate first", "Activate second"}
+		for k, h := range got {
+			if k >= len(sent) || h != sent[k] {
+				c.Violation("server-transient-error:request-never-sent-was-handled", fmt.Sprintf("%s: the handlers received %v; sent were %v", label, got, sent), rep)
+				return
+			}
+		}
+		// responses written
+		sc.mu.Lock()
+		out := append([]byte{}, sc.out.Bytes()...)
+		sc.mu.Unlock()
+		responses := 0
+		for len(out) >= 8 {
+			l := (int(out[4])<<24 | int(out[5])<<16 | int(out[6])<<8 | int(out[7]) + 7) / 8 * 8
+			if 8+l > len(out) {
+				break
+			}
+			responses++
+			out = out[8+l:]
+		}
+		if responses > len(got) {
+			c.Violation("server-transient-error:response-without-request", fmt.Sprintf("%s: the server wrote %d response(s) although only %d of the sent requests reached a handler (a valid stream was answered as if it held something else)", label, responses, len(got)), rep)
+			return
+		}
+		mu.Lock()
+		n++
+		mu.Unlock()
+	})
 	return n
 }
